@@ -13,10 +13,14 @@ import (
 	"bytes"
 	"context"
 	"crypto/sha1"
+	"encoding/json"
 	"errors"
 	"fmt"
 	"io"
 	"net/url"
+	"os"
+	"os/exec"
+	"path/filepath"
 	"reflect"
 	"sort"
 	"strings"
@@ -174,6 +178,8 @@ type caseSpec struct {
 	fullcopy bool
 	newOnly  bool
 	label    string
+	seq      string // instance-reuse streams: which reused instance, and the position in its sequence
+	step     int
 }
 
 // ---- observations --------------------------------------------------------------------
@@ -504,26 +510,59 @@ func buildCfg(spec *caseSpec, sel []int) *config.EndpointConfig {
 	return ep
 }
 
-func (st *runState) factory() proxy.Factory {
+// one built endpoint proxy (plain factory or NewShadowFactory over it) that serves any number
+// of requests.  The stubs and the gate find the state of the request they belong to through
+// the client's context (the shadow context hands Value() to it); when that fails, the
+// request currently being served sequentially.
+type instance struct {
+	cfgSpec  *caseSpec // the configuration (backends); outcomes, request and timing come per call
+	shadowed bool
+	mu       sync.Mutex
+	calls    [][]int
+	cur      atomic.Pointer[runState]
+	p        proxy.Proxy
+	newErr   string
+	panicked string
+}
+
+const stateKey ctxKey = "c16-state-key"
+
+func (inst *instance) state(ctx context.Context) *runState {
+	if st, ok := ctx.Value(stateKey).(*runState); ok && st != nil {
+		return st
+	}
+	return inst.cur.Load()
+}
+
+var errNoState = errors.New("c16: stub called outside any request of the harness")
+
+func (inst *instance) factory() proxy.Factory {
 	inner := proxy.NewDefaultFactory(func(be *config.Backend) proxy.Proxy {
 		i := backendIndex(be)
-		if i < 0 || i >= len(st.spec.bes) {
+		if i < 0 || i >= len(inst.cfgSpec.bes) {
 			panic("unknown backend " + be.URLPattern)
 		}
-		if st.shadowed && st.spec.bes[i].ns.shadow() {
-			return st.shadowStub(i)
+		isShadow := inst.shadowed && inst.cfgSpec.bes[i].ns.shadow()
+		return func(ctx context.Context, r *proxy.Request) (*proxy.Response, error) {
+			st := inst.state(ctx)
+			if st == nil {
+				return nil, errNoState
+			}
+			if isShadow {
+				return st.shadowStub(i)(ctx, r)
+			}
+			return st.regularStub(i)(ctx, r)
 		}
-		return st.regularStub(i)
 	}, logging.NoOp)
 	return proxy.FactoryFunc(func(cfg *config.EndpointConfig) (proxy.Proxy, error) {
 		var l []int
 		for _, b := range cfg.Backend {
 			l = append(l, backendIndex(b))
 		}
-		st.mu.Lock()
-		st.calls = append(st.calls, l)
-		n := len(st.calls)
-		st.mu.Unlock()
+		inst.mu.Lock()
+		inst.calls = append(inst.calls, l)
+		n := len(inst.calls)
+		inst.mu.Unlock()
 		p, err := inner.New(cfg)
 		if err != nil || p == nil || n != 1 {
 			return p, err
@@ -531,7 +570,8 @@ func (st *runState) factory() proxy.Factory {
 		// the first proxy asked for is the regular pipeline: hold it when the case wants the
 		// shadow side to go first
 		return func(ctx context.Context, r *proxy.Request) (*proxy.Response, error) {
-			if st.shadowed && st.spec.mode == mShadowFirst && st.nShadow > 0 {
+			st := inst.state(ctx)
+			if st != nil && st.shadowed && st.spec.mode == mShadowFirst && st.nShadow > 0 {
 				select {
 				case <-st.allReached:
 				case <-time.After(gateWait()):
@@ -588,15 +628,44 @@ func mkRequest(q reqSpec) *proxy.Request {
 	return r
 }
 
-func run(spec *caseSpec, shadowed bool) (res runResult) {
-	st := &runState{spec: spec, shadowed: shadowed, regs: make([]regObs, len(spec.bes)), shs: make([]shObs, len(spec.bes)),
-		allReached: make(chan struct{}), clientEnded: make(chan struct{})}
-	res.st = st
+func build(spec *caseSpec, shadowed bool) *instance {
+	inst := &instance{cfgSpec: spec, shadowed: shadowed}
 	var sel []int
 	for i, b := range spec.bes {
 		if shadowed || !b.ns.shadow() {
 			sel = append(sel, i)
 		}
+	}
+	cfg := buildCfg(spec, sel)
+	var f proxy.Factory = inst.factory()
+	if shadowed {
+		f = proxy.NewShadowFactory(f)
+	}
+	func() {
+		defer func() {
+			if r := recover(); r != nil {
+				inst.panicked = fmt.Sprint("New: ", r)
+			}
+		}()
+		var err error
+		inst.p, err = f.New(cfg)
+		inst.newErr = newErrName(err)
+	}()
+	return inst
+}
+
+// one request through the instance; spec has the instance's backends with this request's
+// outcomes, body and timing.  sequential: no other request of the instance is in flight.
+func (inst *instance) call(spec *caseSpec, sequential bool) (res runResult) {
+	shadowed := inst.shadowed
+	st := &runState{spec: spec, shadowed: shadowed, regs: make([]regObs, len(spec.bes)), shs: make([]shObs, len(spec.bes)),
+		allReached: make(chan struct{}), clientEnded: make(chan struct{})}
+	res.st = st
+	inst.mu.Lock()
+	st.calls = append([][]int{}, inst.calls...)
+	inst.mu.Unlock()
+	res.newErr, res.panicked = inst.newErr, inst.panicked
+	for _, b := range spec.bes {
 		if shadowed && b.ns.shadow() {
 			st.nShadow++
 		}
@@ -608,28 +677,17 @@ func run(spec *caseSpec, shadowed bool) (res runResult) {
 			st.scribble = true
 		}
 	}
-	cfg := buildCfg(spec, sel)
-	var f proxy.Factory = st.factory()
-	if shadowed {
-		f = proxy.NewShadowFactory(f)
-	}
-	var p proxy.Proxy
-	func() {
-		defer func() {
-			if r := recover(); r != nil {
-				res.panicked = fmt.Sprint("New: ", r)
-			}
-		}()
-		var err error
-		p, err = f.New(cfg)
-		res.newErr = newErrName(err)
-	}()
+	p := inst.p
 	if res.panicked != "" || res.newErr != "" || p == nil || spec.newOnly {
 		return
 	}
+	if sequential {
+		inst.cur.Store(st)
+		defer inst.cur.Store(nil)
+	}
 	req := mkRequest(spec.req)
 	res.origHdr, res.origPar, res.origBody = mapPtr(req.Headers), mapPtr(req.Params), req.Body
-	ctx, cancel := context.WithCancel(context.WithValue(context.Background(), clientKey, "client-value"))
+	ctx, cancel := context.WithCancel(context.WithValue(context.WithValue(context.Background(), clientKey, "client-value"), stateKey, st))
 	if spec.mode == mCancelFirst {
 		cancel()
 	}
@@ -656,6 +714,8 @@ func run(spec *caseSpec, shadowed bool) (res runResult) {
 	}
 	return
 }
+
+func run(spec *caseSpec, shadowed bool) runResult { return build(spec, shadowed).call(spec, true) }
 
 // ---- emission ------------------------------------------------------------------------
 
@@ -850,8 +910,9 @@ func ctxErrCoq(o *ctxErrObs) string {
 	return emit.Some(emit.Pair(k, emit.Z(o.at)))
 }
 
-func shsCoq(spec *caseSpec, r runResult) (string, []interface{}) {
+func shsCoq(spec *caseSpec, r runResult) (string, []interface{}, string) {
 	st := r.st
+	var sig strings.Builder
 	var l []string
 	var js []interface{}
 	for i, b := range spec.bes {
@@ -889,6 +950,14 @@ func shsCoq(spec *caseSpec, r runResult) (string, []interface{}) {
 		l = append(l, fmt.Sprintf("(Build_sobs %s %s %s %s %s %s %s %s %s %s %s)",
 			emit.Nat(i), emit.Nat(o.calls), obsReqCoq(o.r, spec.req),
 			emit.Bool(privHdr), emit.Bool(privPar), emit.Bool(privBody), emit.Bool(o.value), dl, emit.Z(o.seen), ctxErrCoq(o.cancel), ctxErrCoq(o.final)))
+		ce, fe := "-", "-"
+		if o.cancel != nil {
+			ce = o.cancel.err
+		}
+		if o.final != nil {
+			fe = o.final.err
+		}
+		fmt.Fprintf(&sig, "%d|%d|%s|%v%v%v|%v|%v|%s|%s;", i, o.calls, obsReqCoq(o.r, spec.req), privHdr, privPar, privBody, o.value, o.hasDeadline, ce, fe)
 		j := reqJS(o.r)
 		j["id"] = i
 		j["calls"] = o.calls
@@ -906,7 +975,7 @@ func shsCoq(spec *caseSpec, r runResult) (string, []interface{}) {
 		}
 		js = append(js, j)
 	}
-	return emit.List(l), js
+	return emit.List(l), js, sig.String()
 }
 
 func besCoq(spec *caseSpec) (string, []interface{}) {
@@ -944,6 +1013,7 @@ func optErrCoq(s string) string {
 }
 
 type emitted struct {
+	dedup string // the observation without its clock readings (concurrent stream)
 	term  string
 	js    map[string]interface{}
 	canon string
@@ -951,9 +1021,9 @@ type emitted struct {
 	nontr bool
 }
 
-func evalCase(spec *caseSpec) emitted {
-	plain := run(spec, false)
-	shadowed := run(spec, true)
+func evalCase(spec *caseSpec) emitted { return emitCase(spec, run(spec, false), run(spec, true)) }
+
+func emitCase(spec *caseSpec, plain, shadowed runResult) emitted {
 	bes, besJS := besCoq(spec)
 	var plainIDs []int
 	nsh := 0
@@ -965,7 +1035,7 @@ func evalCase(spec *caseSpec) emitted {
 		}
 	}
 	keys := []string{fmt.Sprintf("backends:%d", len(spec.bes)), fmt.Sprintf("shadows:%d", nsh)}
-	canon := fmt.Sprintf("%s|%v|%v|%d|%v", spec.label, besJS, spec.ep, spec.mode, spec.req)
+	canon := fmt.Sprintf("%s|%s|%d|%v|%v|%d|%v", spec.label, spec.seq, spec.step, besJS, spec.ep, spec.mode, spec.req)
 	if spec.req.body != nil {
 		canon += "|" + *spec.req.body
 	}
@@ -973,13 +1043,13 @@ func evalCase(spec *caseSpec) emitted {
 		term := emit.App("CNew", bes, callsCoq(shadowed.st.calls), emit.NatList(plainIDs), optErrCoq(plain.newErr+plain.panicked), optErrCoq(shadowed.newErr+shadowed.panicked))
 		js := map[string]interface{}{"level": "factory", "label": spec.label, "backends": besJS,
 			"observed": map[string]interface{}{"factory_calls": shadowed.st.calls, "plain_new_error": plain.newErr + plain.panicked, "shadow_new_error": shadowed.newErr + shadowed.panicked}}
-		return emitted{term, js, "N|" + canon, append(keys, "level:factory"), nsh > 0}
+		return emitted{term, term, js, "N|" + canon, append(keys, "level:factory"), nsh > 0}
 	}
 	pc, pj := cresCoq(plain)
 	sc, sj := cresCoq(shadowed)
 	pr, prj := regsCoq(spec, plain.st)
 	sr, srj := regsCoq(spec, shadowed.st)
-	ss, ssj := shsCoq(spec, shadowed)
+	ss, ssj, ssig := shsCoq(spec, shadowed)
 	var outs []string
 	for i, b := range spec.bes {
 		if b.ns.shadow() {
@@ -1015,6 +1085,11 @@ func evalCase(spec *caseSpec) emitted {
 		"observed": map[string]interface{}{"factory_calls": shadowed.st.calls, "watchdog_fired": wd, "order_not_imposed": shadowed.st.orderNotImposed,
 			"plain_result": pj, "with_shadows_result": sj, "regular_backends_plain_run": prj, "regular_backends_with_shadows": srj, "shadow_backends": ssj}}
 	keys = append(keys, "level:call", "timing:"+modeNames[spec.mode])
+	if spec.seq != "" {
+		js["reused_instance"] = spec.seq
+		js["step"] = spec.step
+		keys = append(keys, "stream:"+spec.label)
+	}
 	if q.body == nil {
 		keys = append(keys, "body:none")
 	} else {
@@ -1029,10 +1104,124 @@ func evalCase(spec *caseSpec) emitted {
 			keys = append(keys, "body:over-1KB")
 		}
 	}
-	return emitted{term, js, "R|" + canon, keys, nsh > 0}
+	return emitted{fmt.Sprintf("%v|%s|%s|%s|%s|%s", wd, pc, sc, pr, sr, ssig), term, js, "R|" + canon, keys, nsh > 0}
 }
 
 // ---- generation ----------------------------------------------------------------------
+
+type childCase struct {
+	Dedup, Term string
+	Js          map[string]interface{}
+	Canon       string
+	Keys        []string
+	Nontr       bool
+}
+
+// run a concurrent job in a child process (same binary, same seed: it rebuilds the same jobs)
+func runInChild(cfg out.Config, j int, jb job) []emitted {
+	dir := filepath.Join(cfg.Dir, fmt.Sprintf("conc-%d", j))
+	cmd := exec.Command(os.Args[0], "--tier", cfg.Tier, "--seed", fmt.Sprint(cfg.Seed), "--out", dir, "--extra", fmt.Sprintf("concjob=%d", j))
+	outp, err := cmd.CombinedOutput()
+	if err == nil {
+		var cs []childCase
+		b, rerr := os.ReadFile(filepath.Join(dir, "conc.json"))
+		if rerr == nil && json.Unmarshal(b, &cs) == nil {
+			os.RemoveAll(dir)
+			var res []emitted
+			for _, c := range cs {
+				res = append(res, emitted{c.Dedup, c.Term, c.Js, c.Canon, c.Keys, c.Nontr})
+			}
+			return res
+		}
+		err = fmt.Errorf("no result file: %v", rerr)
+	}
+	// the process serving the concurrent requests died: what the callers of the shadow-factory
+	// endpoint observe is a crash, whereas the plain endpoint answers.  Recorded as a case on
+	// the first input of the job (plain side observed here, sequentially).
+	os.RemoveAll(dir)
+	st := jb.steps[0]
+	plain := build(st, false).call(st, true)
+	msg := string(outp)
+	first := msg
+	if i := strings.Index(first, "\n"); i >= 0 {
+		first = first[:i]
+	}
+	crashed := runResult{called: true, panicked: "process died under concurrent requests: " + first, st: &runState{spec: st, shadowed: true,
+		regs: make([]regObs, len(st.bes)), shs: make([]shObs, len(st.bes)), calls: plain.st.calls, watchdog: true}}
+	e := emitCase(st, plain, crashed)
+	e.js["child_process_error"] = err.Error()
+	e.js["child_process_output"] = trunc(msg, 3000)
+	return []emitted{e}
+}
+
+type job struct {
+	steps             []*caseSpec
+	goroutines, iters int // > 0: concurrent reuse
+}
+
+func (j job) run() []emitted {
+	if j.goroutines > 0 {
+		return j.runConcurrent()
+	}
+	if len(j.steps) == 1 && j.steps[0].seq == "" {
+		return []emitted{evalCase(j.steps[0])}
+	}
+	// ONE plain and ONE shadow-factory instance for the whole sequence
+	pi, si := build(j.steps[0], false), build(j.steps[0], true)
+	var res []emitted
+	for _, st := range j.steps {
+		res = append(res, emitCase(st, pi.call(st, true), si.call(st, true)))
+	}
+	return res
+}
+
+// ONE plain and ONE shadow-factory instance hit from several goroutines released together,
+// over and over with the inputs j.steps; every distinct (input, observation) pair - clock
+// readings aside - is emitted once, so a run without interference between the requests of an
+// instance yields exactly one case per input
+func (j job) runConcurrent() []emitted {
+	pi, si := build(j.steps[0], false), build(j.steps[0], true)
+	seen := make([]map[string]emitted, j.goroutines)
+	start := make(chan struct{})
+	var wg sync.WaitGroup
+	for g := 0; g < j.goroutines; g++ {
+		seen[g] = map[string]emitted{}
+		wg.Add(1)
+		go func(g int) {
+			defer wg.Done()
+			<-start
+			for k := 0; k < j.iters; k++ {
+				idx := (g*7 + k*3) % len(j.steps)
+				st := j.steps[idx]
+				e := emitCase(st, pi.call(st, false), si.call(st, false))
+				key := fmt.Sprintf("%03d|%s", idx, e.dedup)
+				if _, ok := seen[g][key]; !ok {
+					seen[g][key] = e
+				}
+			}
+		}(g)
+	}
+	close(start)
+	wg.Wait()
+	all := map[string]emitted{}
+	for g := range seen {
+		for k, e := range seen[g] {
+			if _, ok := all[k]; !ok {
+				all[k] = e
+			}
+		}
+	}
+	keys := make([]string, 0, len(all))
+	for k := range all {
+		keys = append(keys, k)
+	}
+	sort.Strings(keys)
+	var res []emitted
+	for _, k := range keys {
+		res = append(res, all[k])
+	}
+	return res
+}
 
 func sp(s string) *string { return &s }
 
@@ -1058,8 +1247,8 @@ func main() {
 	cfg := out.ParseFlags("C16")
 	r := rng.New(cfg.Seed)
 	w := out.NewWriter(cfg, "Verif.Corr.C16", 150)
-	var specs []*caseSpec
-	add := func(s *caseSpec) {
+	var jobs []job
+	sanitize := func(s *caseSpec) {
 		var regIdx []int
 		for i := range s.bes {
 			if !s.bes[i].ns.shadow() {
@@ -1083,7 +1272,61 @@ func main() {
 				s.bes[regIdx[0]].method = "POST"
 			}
 		}
-		specs = append(specs, s)
+	}
+	add := func(s *caseSpec) {
+		sanitize(s)
+		jobs = append(jobs, job{steps: []*caseSpec{s}})
+	}
+	// one instance serving the steps one after the other
+	addSeq := func(name string, steps []*caseSpec) {
+		for k, st := range steps {
+			st.seq, st.step, st.label = name, k, "reuse-sequential"
+			sanitize(st)
+		}
+		jobs = append(jobs, job{steps: steps})
+	}
+	// one instance hit concurrently
+	addConc := func(name string, steps []*caseSpec, goroutines, iters int) {
+		for k, st := range steps {
+			st.seq, st.step, st.label = name, k, "reuse-concurrent"
+			sanitize(st)
+		}
+		jobs = append(jobs, job{steps: steps, goroutines: goroutines, iters: iters})
+	}
+	// a sequence / a set of distinct inputs for one configuration: per step the outcomes of
+	// the regular and of the shadow backends (in configuration order), timing, request
+	type variation struct {
+		routs, souts []int
+		mode         int
+		req          reqSpec
+	}
+	mkSteps := func(cfgBes []beSpec, ep time.Duration, vs []variation) []*caseSpec {
+		var steps []*caseSpec
+		full := true
+		for _, b := range cfgBes {
+			if b.gql != "" {
+				full = false
+			}
+		}
+		for _, v := range vs {
+			bes := append([]beSpec{}, cfgBes...)
+			ri, si := 0, 0
+			for i := range bes {
+				if bes[i].ns.shadow() {
+					bes[i].sout = v.souts[si%len(v.souts)]
+					si++
+				} else {
+					bes[i].rout = v.routs[ri%len(v.routs)]
+					ri++
+				}
+			}
+			steps = append(steps, &caseSpec{bes: bes, ep: ep, req: v.req, mode: v.mode, fullcopy: full})
+		}
+		return steps
+	}
+	stepReq := func(k int, body *string) reqSpec {
+		return reqSpec{method: "POST", hdr: map[string][]string{"X-Step": {fmt.Sprintf("s%d", k)}, "X-Multi": {"a", fmt.Sprintf("b%d", k)}},
+			qry: map[string][]string{"x": {fmt.Sprintf("%d", k)}}, par: map[string]string{"P1": fmt.Sprintf("v%d", k)}, body: body}
 	}
 
 	reg := func(method string, rout int) beSpec {
@@ -1121,6 +1364,32 @@ func main() {
 	add(&caseSpec{bes: []beSpec{shd("GET", "1s", sOk)}, ep: time.Second, newOnly: true, label: "corpus-only-shadow"})
 	add(&caseSpec{bes: []beSpec{shd("GET", "1s", sOk), shd("POST", "", sErr)}, ep: time.Second, newOnly: true, label: "corpus-only-shadows"})
 	add(&caseSpec{bes: []beSpec{reg("GET", rPayload)}, ep: time.Hour, req: defaultReq(nil), fullcopy: true, label: "corpus-no-shadow"})
+
+	// one NewShadowFactory-built proxy serving several requests that differ in body, headers,
+	// params and in what the backends do (state kept across requests of one instance shows here)
+	{
+		bA, bB, bC := sp("body-A-first-request"), sp("B"), sp("third body, C")
+		addSeq("corpus-1reg-1shadow", mkSteps([]beSpec{reg("POST", 0), shd("POST", "1h", 0)}, time.Hour, []variation{
+			{[]int{rPayload}, []int{sOk}, mShadowFirst, stepReq(0, bA)},
+			{[]int{rIncomplete}, []int{sGarbage}, mRegularFirst, stepReq(1, bB)},
+			{[]int{rEmpty}, []int{sOk}, mShadowFirst, stepReq(2, nil)},
+			{[]int{rErr}, []int{sErr}, mCancelFirst, stepReq(3, bC)},
+			{[]int{rPayload}, []int{sOk}, mRegularFirst, stepReq(4, bA)},
+			{[]int{rNilData}, []int{sGarbage}, mShadowFirst, stepReq(5, sp(""))}}))
+		g := shd("GET", "1h", 0)
+		g.gql = "get"
+		addSeq("corpus-graphql-shadow-merge", mkSteps([]beSpec{g, reg("GET", 0), reg("POST", 0)}, time.Hour, []variation{
+			{[]int{rPayload, rPayload}, []int{sOk}, mShadowFirst, stepReq(0, bA)},
+			{[]int{rIncomplete, rErr}, []int{sErr}, mShadowFirst, stepReq(1, bB)},
+			{[]int{rEmpty, rPayload}, []int{sOk}, mRegularFirst, stepReq(2, nil)},
+			{[]int{rPayload, rNilData}, []int{sGarbage}, mShadowFirst, stepReq(3, bC)}}))
+		addSeq("corpus-hanging-shadows", mkSteps([]beSpec{reg("POST", 0), shd("POST", "10ms", 0), shd("PUT", "5ms", 0)}, time.Hour, []variation{
+			{[]int{rPayload}, []int{sHang, sOk}, mRegularFirst, stepReq(0, bA)},
+			{[]int{rErr}, []int{sOk, sOk}, mShadowFirst, stepReq(1, bB)},
+			{[]int{rPayload}, []int{sOk, sHang}, mCancelFirst, stepReq(2, bC)},
+			{[]int{rIncomplete}, []int{sGarbage, sErr}, mRegularFirst, stepReq(3, nil)},
+			{[]int{rPayload}, []int{sHang, sHang}, mShadowFirst, stepReq(4, bA)}}))
+	}
 
 	// ---- 2. every shape of the extra_config entry, next to one regular backend ----
 	var shapes []nsCfg
@@ -1349,13 +1618,137 @@ func main() {
 		add(&caseSpec{bes: bes, ep: ep, req: q, mode: mode, fullcopy: !gqlUsed, label: "random"})
 	}
 
-	// ---- run (cases are independent: a pool of workers, results emitted in order) ----
-	results := make([]emitted, len(specs))
+	// ---- 5. instance reuse, sequential: every split of 2..3 backends, random sequences ----
+	seqPer := 4
+	if cfg.Thorough() {
+		seqPer = 10
+	}
+	for n := 2; n <= 3; n++ {
+		for mask := 1; mask < (1<<n)-1; mask++ {
+			for rep := 0; rep < seqPer; rep++ {
+				hang := rep%2 == 1
+				cfgBes := make([]beSpec, n)
+				var nreg, nsh int
+				for i := 0; i < n; i++ {
+					if mask&(1<<i) != 0 {
+						t := []string{"1h", "2h", "45m"}[r.Intn(3)]
+						if hang {
+							t = []string{"4ms", "9ms", "14ms"}[r.Intn(3)]
+						}
+						cfgBes[i] = shd([]string{"POST", "PUT", "GET"}[r.Intn(3)], t, 0)
+						nsh++
+					} else {
+						cfgBes[i] = reg([]string{"POST", "PUT", "GET"}[r.Intn(3)], 0)
+						nreg++
+					}
+				}
+				// bodies travel in every sequence: each group needs an unsafe method (see above)
+				for _, isSh := range []bool{false, true} {
+					var grp []int
+					for i := range cfgBes {
+						if cfgBes[i].ns.shadow() == isSh {
+							grp = append(grp, i)
+						}
+					}
+					if len(grp) >= 2 {
+						cfgBes[grp[r.Intn(len(grp))]].method = "POST"
+					}
+				}
+				var vs []variation
+				for k, steps := 0, 4+r.Intn(3); k < steps; k++ {
+					v := variation{mode: r.Intn(3)}
+					for i := 0; i < nreg; i++ {
+						v.routs = append(v.routs, r.Intn(5))
+					}
+					for i := 0; i < nsh; i++ {
+						so := r.Intn(3)
+						if hang && r.Bool() {
+							so = sHang
+						}
+						v.souts = append(v.souts, so)
+					}
+					var body *string
+					if r.Intn(4) != 0 {
+						body = sp(fmt.Sprintf("body of step %d/%d-%d", k, mask, r.Intn(1000)))
+					}
+					v.req = stepReq(k, body)
+					vs = append(vs, v)
+				}
+				addSeq(fmt.Sprintf("seq-n%d-m%d-%d", n, mask, rep), mkSteps(cfgBes, time.Hour, vs))
+			}
+		}
+	}
+
+	// ---- 6. instance reuse, concurrent (last: the number of cases it yields is data dependent
+	// only when requests of one instance interfere) ----
+	{
+		g, it := 12, 40
+		if cfg.Thorough() {
+			g, it = 16, 250
+		}
+		gq := shd("GET", "45m", 0)
+		gq.gql = "get"
+		for ci, cfgBes := range [][]beSpec{
+			{reg("POST", 0), shd("POST", "1h", 0)},
+			{shd("PUT", "1h", 0), reg("GET", 0), reg("POST", 0), gq},
+			{reg("GET", 0), shd("POST", "2h", 0), shd("GET", "", 0)}} {
+			var vs []variation
+			for k := 0; k < 10; k++ {
+				var body *string
+				if k%4 != 3 {
+					body = sp(fmt.Sprintf("concurrent body %d of configuration %d", k, ci))
+				}
+				vs = append(vs, variation{routs: []int{k % 5, (k + 2) % 5}, souts: []int{k % 3, (k + 1) % 3}, mode: k % 3, req: stepReq(k, body)})
+			}
+			addConc(fmt.Sprintf("conc-%d", ci), mkSteps(cfgBes, time.Hour, vs), g, it)
+		}
+	}
+
+	// ---- run (jobs are independent: a pool of workers, results emitted in order).  A job is
+	// one case, one reused instance with its sequence, or one concurrently used instance.
+	// Replay (--only idx) re-runs the whole job that holds idx. ----
+	if strings.HasPrefix(cfg.Extra, "concjob=") {
+		var j int
+		fmt.Sscanf(cfg.Extra, "concjob=%d", &j)
+		var outp []childCase
+		for _, e := range jobs[j].run() {
+			outp = append(outp, childCase{e.dedup, e.term, e.js, e.canon, e.keys, e.nontr})
+		}
+		b, _ := json.Marshal(outp)
+		if err := os.WriteFile(filepath.Join(cfg.Dir, "conc.json"), b, 0o644); err != nil {
+			panic(err)
+		}
+		return
+	}
+	starts := make([]int, len(jobs)+1)
+	for j := range jobs {
+		n := len(jobs[j].steps)
+		if jobs[j].goroutines > 0 {
+			n = 0 // unknown before it ran; these jobs come last
+		}
+		starts[j+1] = starts[j] + n
+	}
+	results := make([][]emitted, len(jobs))
+	wanted := func(j int) bool {
+		if cfg.Only < 0 {
+			return true
+		}
+		if jobs[j].goroutines > 0 {
+			return cfg.Only >= starts[j]
+		}
+		return starts[j] <= cfg.Only && cfg.Only < starts[j+1]
+	}
 	var wg sync.WaitGroup
-	next := make(chan int, len(specs))
-	for i := range specs {
-		if cfg.Only < 0 || i == cfg.Only {
-			next <- i
+	next := make(chan int, len(jobs))
+	var concJobs []int
+	for j := range jobs {
+		if !wanted(j) {
+			continue
+		}
+		if jobs[j].goroutines > 0 {
+			concJobs = append(concJobs, j)
+		} else {
+			next <- j
 		}
 	}
 	close(next)
@@ -1363,22 +1756,31 @@ func main() {
 		wg.Add(1)
 		go func() {
 			defer wg.Done()
-			for i := range next {
-				results[i] = evalCase(specs[i])
+			for j := range next {
+				results[j] = jobs[j].run()
 			}
 		}()
 	}
 	wg.Wait()
-	for i := range specs {
-		e := results[i]
-		if cfg.Only >= 0 && i != cfg.Only {
-			w.Add("", nil, "", fmt.Sprintf("skipped-%d", i), false)
+	// concurrent jobs run one at a time, each in a child process: requests of one instance that
+	// interfere can bring the Go runtime down (concurrent map writes); that must be an
+	// observation, not the end of the generator
+	for _, j := range concJobs {
+		results[j] = runInChild(cfg, j, jobs[j])
+	}
+	for j := range jobs {
+		if !wanted(j) {
+			for k := starts[j]; k < starts[j+1]; k++ {
+				w.Add("", nil, "", fmt.Sprintf("skipped-%d", k), false)
+			}
 			continue
 		}
-		for _, k := range e.keys {
-			w.Count(k)
+		for _, e := range results[j] {
+			for _, k := range e.keys {
+				w.Count(k)
+			}
+			w.Add(e.term, e.js, "", e.canon, e.nontr)
 		}
-		w.Add(e.term, e.js, "", e.canon, e.nontr)
 	}
-	w.Close("corpus (GraphQL GET/POST shadow or regular next to plain backends, the shapes of shadow_test.go, empty request, degenerate configurations); every shape of the proxy extra_config entry (namespace absent / not a map / shadow flag absent, not a bool, true, false x shadow_timeout absent, not a string, 10 strings) next to regular backends; every split of 2..4 backends into >=1 regular and >=1 shadow x every shadow outcome vector {ok,error,garbage,hang}^s x 3 imposed timings (quick: 4 backends sampled 1/3), regular outcomes as in C01 and bodies drawn per case; random stream (random requests, methods, timeouts, GraphQL stages, 85% merge bound below the shadow timeout). Each case = one call of the plain factory's endpoint on the regular backends + one call of NewShadowFactory's endpoint. nontrivial = at least one shadow backend", true)
+	w.Close("corpus (GraphQL GET/POST shadow or regular next to plain backends, the shapes of shadow_test.go, empty request, degenerate configurations); every shape of the proxy extra_config entry (namespace absent / not a map / shadow flag absent, not a bool, true, false x shadow_timeout absent, not a string, 10 strings) next to regular backends; every split of 2..4 backends into >=1 regular and >=1 shadow x every shadow outcome vector {ok,error,garbage,hang}^s x 3 imposed timings (quick: 4 backends sampled 1/3), regular outcomes as in C01 and bodies drawn per case; random stream (random requests, methods, timeouts, GraphQL stages, 85% merge bound below the shadow timeout); instance reuse: ONE plain and ONE NewShadowFactory-built proxy per configuration serving a sequence of 4-6 requests that differ in body, headers, params, regular and shadow outcomes and timing (3 corpus sequences, every split of 2..3 backends x 2 random sequences, with and without hanging shadows), and 3 configurations hit by 12 goroutines x 40 iterations over 10 distinct inputs (each distinct observation emitted once). Each case = one call of the plain factory's endpoint on the regular backends + one call of NewShadowFactory's endpoint. nontrivial = at least one shadow backend", true)
 }
